@@ -278,6 +278,12 @@ fn mini_histories(rep: &Report, prop: &str, b: &Bench, help: &Tree, src: &[u8]) 
                     return;
                 }
                 rep.add("unchanged_rebuild_sources", 1);
+                // a target that this one source writes twice with different contents is rewritten by every run
+                // (each write sees the other's content): "already correct" is not defined for it
+                let multi = std::str::from_utf8(src).map(crate::model::temp_targets_rewritten_in_run).unwrap_or_default();
+                if !multi.is_empty() {
+                    rep.add("sources_writing_one_temp_target_twice", 1);
+                }
                 for mode in [Mode::InMemoryBuild, Mode::Build, Mode::Verify] {
                     set_sentinel(&b.base);
                     let before = snapshot(&b.base);
@@ -293,6 +299,9 @@ fn mini_histories(rep: &Report, prop: &str, b: &Bench, help: &Tree, src: &[u8]) 
                         let is_out = g == OUT;
                         if is_out && mode == Mode::Build {
                             continue; // a normal build may rewrite outputs
+                        }
+                        if multi.contains(g) {
+                            continue;
                         }
                         if meta_of(&before, g) != meta_of(&after, g) {
                             rep.violate(
